@@ -228,8 +228,12 @@ def gen_scenario(rng, size="small", features=None):
                     gab[str(s)] = rng.choice(["cancel", "deadline", "select"])
         prods.append({"id": i, "msgs": msgs, "mode": mode, "notes": rng.range(0, 3), "gc": rng.chance(1, 2),
                       "ret": rng.range(0, 1000), "gab": gab})
+    # use after close: once everything is delivered and the channels are closed, a further OS thread tries ev/give on some of
+    # them (must raise), then ANOTHER OS thread uses the same channels (ev/count, ev/take -> nil): a failed operation must
+    # leave the channel usable for every other thread
+    late = sorted(set(rng.below(nch) for _ in range(rng.range(1, nch)))) if rng.chance(1, 2) else []
     return {"v": GEN_VERSION, "caps": caps, "cons": cons, "prods": prods,
-            "stale_possible": [stale_possible[ci] for ci in range(nch)]}
+            "stale_possible": [stale_possible[ci] for ci in range(nch)], "late_give": late}
 
 
 PRELUDE = r'''
@@ -403,6 +407,19 @@ def render(scn, stall=8):
     o.append('  (set waiting-for "sup") (def m (ev/take sup)) (++ progress)')
     o.append('  (wr mainlog "sup " (canon m)))')
     o.append('(wr mainlog "supcount " (ev/count sup) " ctlcount " (ev/count ctl))')
+    late_give = scn.get("late_give") or []
+    if late_give:
+        cis = " ".join(str(ci) for ci in late_give)
+        o.append('(set waiting-for "give-on-closed")')
+        o.append('(ev/thread (fn [&] (def f (logf "late-give.txt"))\n'
+                 '  (each ci [%s] (wr f "lategive " ci " " (try (do (ev/give (chans ci) [:late ci]) "returned") ([e] "raised"))))\n'
+                 '  (file/close f)))' % cis)
+        o.append("(++ progress)")
+        o.append('(set waiting-for "use-after-give-on-closed")')
+        o.append('(ev/thread (fn [&] (def f (logf "late-use.txt"))\n'
+                 '  (each ci [%s] (wr f "postclose " ci " " (ev/count (chans ci)) " " (type (ev/take (chans ci)))))\n'
+                 '  (file/close f)))' % cis)
+        o.append("(++ progress)")
     o.append('(wr mainlog "ok")')
     o.append('(ev/cancel watchdog "done")')
     return "\n".join(o) + "\n"
@@ -536,6 +553,20 @@ def oracle(scn, res):
             bad.append(("thread-returned-early", "ev/thread resumed its caller before the thread body had finished: " + line))
         if line.startswith("EXTRA-GOT"):
             bad.append(("duplicate", "a receipt was reported after every sent message had been accounted for"))
+    late_give = scn.get("late_give") or []
+    if late_give and (completed or any(l.startswith("stall give-on-closed") or l.startswith("stall use-after-give-on-closed") for l in main)):
+        lg = logs.get("late-give", [])
+        lu = logs.get("late-use", [])
+        for ci in late_give:
+            if "lategive %d returned" % ci in lg:
+                bad.append(("give-on-closed-accepted", "ev/give on thread channel %d after it was closed returned normally" % ci))
+        want_use = ["postclose %d 0 nil" % ci for ci in late_give]
+        if lg == ["lategive %d raised" % ci for ci in late_give] and lu != want_use:
+            bad.append(("give-closed-keeps-lock", "after an OS thread's ev/give on closed thread channel(s) %r raised, another OS thread using the same "
+                        "channels (ev/count, ev/take) got %r instead of %r%s" % (late_give, lu, want_use,
+                        " and never came back (blocked in janet_chan_lock: the failed give left the channel mutex locked)" if not completed else "")))
+        elif completed and lg != ["lategive %d raised" % ci for ci in late_give]:
+            bad.append(("give-on-closed-accepted", "ev/give on closed thread channels %r: log %r" % (late_give, lg)))
     if completed:
         for line in main:
             if line.startswith("counts "):
@@ -637,4 +668,5 @@ def describe(scn):
             "aborts": sum(len(c["aborts"]) for c in scn["cons"]),
             "gc_consumers": sum(1 for c in scn["cons"] if c.get("gc")),
             "giver_abandon": sorted(set(k for p in scn["prods"] for k in p.get("gab", {}).values())),
+            "late_give": len(scn.get("late_give") or []),
             "shapes": sorted(set(shape_of(pay) for p in scn["prods"] for _, pay in p["msgs"]))}
